@@ -75,6 +75,9 @@ type interpreter struct {
 	tainted     bool
 	vcwd        string
 	egErr       map[*value]value
+	mapRangers  []string
+	recordRangers bool
+	bigOrder    int
 	reProgs     map[*regexp.Regexp]*syntax.Prog
 	summOK      map[*ssa.Function]bool
 	panicStack  []string
